@@ -9,5 +9,6 @@ CONSTANTS
   KIds = {1}
   Es = 8
   MaxB = 16
+  MaxPa = 0
 INVARIANTS Inv Refines LookupOK ChkOK CapacityOK Bounded
 CHECK_DEADLOCK FALSE
